@@ -100,8 +100,15 @@ type unwrapNilErr struct{ msg string }
 func (e unwrapNilErr) Error() string { return e.msg }
 func (e unwrapNilErr) Unwrap() error { return nil }
 
+// temporaryErr looks like a net.Error: it is a failure like any other.
+type temporaryErr struct{ msg string }
+
+func (e temporaryErr) Error() string   { return e.msg }
+func (e temporaryErr) Temporary() bool { return true }
+func (e temporaryErr) Timeout() bool   { return true }
+
 // ErrShapes is the number of shapes.
-const ErrShapes = 4
+const ErrShapes = 5
 
 func (c *Ctx) injected() error {
 	switch c.ErrShape {
@@ -111,6 +118,8 @@ func (c *Ctx) injected() error {
 		return unwrapNilErr{"verif: injected fault (wrapper without wrapped error)"}
 	case 3:
 		return fmt.Errorf("verif: injected fault (wrapped): %w", ErrInjected)
+	case 4:
+		return temporaryErr{"verif: injected fault (reports itself as temporary / timed out)"}
 	}
 	return ErrInjected
 }
